@@ -6,7 +6,9 @@ use crate::cachemc::{self, Env};
 use crate::formulas::{collision_alphabet, duplicate_templates, pair_family, templates, Alphabet, Gen, F};
 use crate::nets::NetSpec;
 use crate::oracle::Labels;
-use crate::report::{Report, Violation};
+use crate::report::{guarded, Report, Violation};
+use biodivine_lib_param_bn::symbolic_async_graph::GraphColoredVertices;
+use std::panic::AssertUnwindSafe;
 use crate::sem;
 use crate::sweep::{label_families, NetCtx};
 use rayon::prelude::*;
@@ -161,6 +163,43 @@ pub fn run(tier: &str) -> Result<Report, String> {
             }
         }
     }
+    // long batches (48 / 96 formulae, many of equal height, in three deterministic orders) through every
+    // multi-formula entry point: every position carries the result of ITS formula
+    {
+        use biodivine_hctl_model_checker::model_checking as mc;
+        let b = by_name(&nets, "con2");
+        let ctx = NetCtx::new(b.clone(), Labels::default(), "none");
+        let all: Vec<F> = Gen::new(Alphabet::all_ops(2, 2)).closed_up_to(3);
+        let n = if tier == "quick" { 48 } else { 96 };
+        let mut n_long = 0u64;
+        for (oi, stride) in [7usize, 13, 1].iter().enumerate() {
+            let idx: Vec<usize> = (0..n).map(|i| (i * stride * 5 + oi * 11) % all.len()).collect();
+            let texts: Vec<String> = idx.iter().map(|i| all[*i].show(&ctx.user)).collect();
+            let ts: Vec<&str> = texts.iter().map(|s| s.as_str()).collect();
+            let single: Vec<Result<GraphColoredVertices, String>> = texts.iter().map(|t| mc::model_check_formula_dirty(t, &b.graph)).collect();
+            let trees: Vec<_> = idx.iter().map(|i| all[*i].to_tree(&ctx.mini)).collect();
+            let empty = std::collections::HashMap::new();
+            let runs: Vec<(&str, Result<Result<Vec<GraphColoredVertices>, String>, String>)> = vec![
+                ("model_check_multiple_formulae_dirty", guarded(AssertUnwindSafe(|| mc::model_check_multiple_formulae_dirty(ts.clone(), &b.graph)))),
+                ("model_check_multiple_extended_formulae_dirty", guarded(AssertUnwindSafe(|| mc::model_check_multiple_extended_formulae_dirty(ts.clone(), &b.graph, &empty)))),
+                ("model_check_multiple_trees_dirty", guarded(AssertUnwindSafe(|| mc::model_check_multiple_trees_dirty(trees.clone(), &b.graph)))),
+            ];
+            for (name, r) in runs {
+                n_long += 1;
+                let what = match r {
+                    Ok(Ok(v)) if v.len() == n => (0..n).find(|i| single[*i].as_ref().map(|s| s != &v[*i]).unwrap_or(true)).map(|i| format!("position {i} ({}) does not carry the result of its formula", texts[i])),
+                    Ok(Ok(v)) => Some(format!("{} results for {n} formulae", v.len())),
+                    Ok(Err(e)) => Some(format!("Err: {e}")),
+                    Err(p) => Some(format!("panic: {p}")),
+                };
+                if let Some(w) = what {
+                    rep.violations.push(Violation { case: json!({"kind": "none"}), what: format!("{name} on a batch of {n} formulae (order {oi}) on con2: {w}"), size: 900 });
+                }
+            }
+        }
+        rep.evaluations += n_long * n as u64;
+        rep.set("long_batches", json!({"formulae_per_batch": n, "orders": 3, "entry_points": 3}));
+    }
     // sharing inside one formula on the template families and on all small extended formulae
     let mut n_single = 0u64;
     for b in nets.iter().filter(|b| ["con2", "asy2"].contains(&b.name.as_str()) || (tier != "quick" && ["imp1", "unc2", "cyc3"].contains(&b.name.as_str()))) {
@@ -198,6 +237,6 @@ pub fn run(tier: &str) -> Result<Report, String> {
         }
     }
     rep.set("single_formula_shared_vs_unshared_cases", json!(n_single));
-    rep.rule = "(also: the same exploration and every ordered list of up to 5 (thorough 6) formulae over a three-formula alphabet - repetition patterns such as [A, A, B, B]) stateright BFS over the real EvalContext: initial states = every multiset of size <= max_batch_len over the collision alphabet (marked as a batch exactly as the entry points do), transitions = real eval_node on any not-yet-evaluated position, states merged by (batch, set of evaluated positions, sha256 digest of the context). In every reached state the new result must equal (BDD equality) the result of the formula evaluated alone and with sharing disabled, and the explicit-state oracle; no panic. Every ordered list of length <= max_batch_len additionally goes through model_check_multiple_extended_formulae_dirty (twice, and with an observer), model_check_multiple_extended_formulae and, for plain lists, model_check_multiple_formulae_dirty. Plus alone-vs-unshared-vs-oracle for every template formula and small extended formula. distinct_nontrivial = number of distinct context digests reached".into();
+    rep.rule = "(also: three long batches of 48 / 96 node-bounded formulae (tied heights, three orders) through model_check_multiple_formulae_dirty / _extended_formulae_dirty / _trees_dirty, position by position against single evaluation; the same exploration and every ordered list of up to 5 (thorough 6) formulae over a three-formula alphabet - repetition patterns such as [A, A, B, B]) stateright BFS over the real EvalContext: initial states = every multiset of size <= max_batch_len over the collision alphabet (marked as a batch exactly as the entry points do), transitions = real eval_node on any not-yet-evaluated position, states merged by (batch, set of evaluated positions, sha256 digest of the context). In every reached state the new result must equal (BDD equality) the result of the formula evaluated alone and with sharing disabled, and the explicit-state oracle; no panic. Every ordered list of length <= max_batch_len additionally goes through model_check_multiple_extended_formulae_dirty (twice, and with an observer), model_check_multiple_extended_formulae and, for plain lists, model_check_multiple_formulae_dirty. Plus alone-vs-unshared-vs-oracle for every template formula and small extended formula. distinct_nontrivial = number of distinct context digests reached".into();
     Ok(rep)
 }
